@@ -497,6 +497,23 @@ def D3(m, R):
                 pr_.append('a value that is not an AnsiStr is not rejected first')
             R.check(not pr_, sf, rets[-1] if rets else sf.node, '__eq__ compares the renderings of two AnsiStr', '; '.join(pr_), construct=cons)
             continue
+        if expr is None and name == 'remove_formatting' and body and isinstance(body[0], ast.If) and not body[0].orelse and len(body[0].body) == 1 and \
+                isinstance(body[0].body[0], ast.Return) and is_name(body[0].body[0].value, selfn):
+            # an early `return self` guarded by find_settings(settings, ..) finding nothing: find_settings reports a position only where *all* the given
+            # settings are active together (rule F4), remove_formatting removes *each* of them wherever it is active
+            g_ = body[0].test
+            atoms = list(g_.values) if isinstance(g_, ast.BoolOp) and isinstance(g_.op, ast.And) else [g_]
+            sp = sf.own_params()[0] if sf.own_params() else None
+            fs = [a_ for a_ in atoms if any(isinstance(x, ast.Call) and call_name(x) == 'find_settings' and x.args and is_name(x.args[0], sp) for x in ast.walk(a_))]
+            others = [a_ for a_ in atoms if a_ not in fs]
+            nothing_found = fs and all(
+                (isinstance(a_, ast.Compare) and len(a_.ops) == 1 and isinstance(a_.ops[0], ast.Is) and const_val(a_.comparators[0], 0) is None) or
+                (isinstance(a_, ast.UnaryOp) and isinstance(a_.op, ast.Not)) for a_ in fs)
+            if len(fs) == 1 and nothing_found and all(norm(a_) in ('%s is not None' % sp, sp) for a_ in others):
+                R.viol(sf, body[0], 'returns this AnsiStr unchanged when %s: find_settings reports a position only where all of the given settings are active '
+                                    'together, while the twin removes each given setting wherever it is active -- with two settings that never overlap '
+                                    '(bold on [0,3), red on [5,8)) nothing is removed although both are given' % short(g_), construct=cons)
+                continue
         if expr is None:
             R.undecided(sf, sf.node, 'twin form not recognised', construct=cons)
             continue
